@@ -169,6 +169,23 @@ func NodeID(i int) uint32 { return uint32(i + 1) }
 // NewClient creates a manager over the cluster's fabric. All servers of the
 // cluster are registered as nodes (configuration 0 is "all servers").
 func NewClient(cl *Cluster, o MgrOpts) (*Client, error) {
+	var c *Client
+	var err error
+	// a manager whose nodes did not all connect (see the end of newClientOnce) is closed and
+	// built again a few times before the case is given up as not evaluable
+	for attempt := 0; attempt < 4; attempt++ {
+		c, err = newClientOnce(cl, o)
+		if !errors.Is(err, errNotConnected) {
+			break
+		}
+		noteLoadFault() // whatever the case observes of the abandoned manager is not the case's doing
+	}
+	return c, err
+}
+
+var errNotConnected = errors.New("setup")
+
+func newClientOnce(cl *Cluster, o MgrOpts) (*Client, error) {
 	c := &Client{Cl: cl, Opts: o, srvOf: map[uint32]int{}, calls: map[uint64]*Call{}}
 	dial := []grpc.DialOption{
 		grpc.WithContextDialer(cl.Fab.Dialer),
@@ -256,7 +273,7 @@ func NewClient(cl *Cluster, o MgrOpts) (*Client, error) {
 			i, ok := c.srvOf[n.ID()]
 			if ok && reach[i] && cl.Fab.Reachable(Addr(i)) && !gorums.VerifConnected(n.RawNode) {
 				c.Close(B)
-				return c, fmt.Errorf("setup: the node of reachable server %d did not connect within the dial timeout (%d ms); machine overloaded?", i, dt)
+				return c, fmt.Errorf("%w: the node of reachable server %d did not connect (connect deadline = back-off %d ms, dial timeout %d ms); machine overloaded?", errNotConnected, i, bo, dt)
 			}
 		}
 	}
